@@ -484,6 +484,9 @@ def tree_vs_source(text):
     tree = LarkParser().parse(text)
     if any(getattr(t, "data", None) == "_ambig" for t in tree.iter_subtrees()):
         return "ambiguous"
+    for t in tree.scan_values(lambda v: True):
+        if t.value not in text:
+            return f"the parse tree carries the token {t.value!r} which does not occur in the text"
     src = _source_leaves(tree)
     tr = _transformer()
     es = tr.transform(tree)
@@ -549,6 +552,7 @@ def tree_equals_source(tier, cfg, shard, carve):
         if str(r) != "sat":
             return {"verdict": "CANNOT_CONFIRM", "message": f"no text for {f}: {r}", "z3_queries": q, "z3_s": round(zs, 2), "paths": checked, "cex": None}
         text = s.model()[x].as_string()
+        after = None
         if witness is None:
             witness = {"match": [t_ for t_, _ in f], "text": text}
         try:
@@ -560,18 +564,23 @@ def tree_equals_source(tier, cfg, shard, carve):
                 d2 = tree_vs_source(text2)
                 if d2:
                     diff = "after parsing %r, the text %r: %s" % (text, text2, d2)
-                    text = text2
+                    after, text = text, text2
         except Exception as e:
             diff = "raised " + repr(e)[:300]
         checked += 1
         if diff:
-            return {"verdict": "SAT", "message": diff[:500], "cex": {"text": text}, "z3_queries": q, "z3_s": round(zs, 2), "paths": checked, "witness": witness}
+            cex = {"text": text}
+            if after is not None:
+                cex["after"] = after  # a two-step history: this text was parsed first in the same process
+            return {"verdict": "SAT", "message": diff[:500], "cex": cex, "z3_queries": q, "z3_s": round(zs, 2), "paths": checked, "witness": witness}
     return {"verdict": "UNSAT", "message": "", "cex": None, "z3_queries": q, "z3_s": round(zs, 2), "paths": checked, "witness": witness,
             "engine": "z3 regular-language models + real parser/transformer", "extra": {"programs": checked, "N": n}}
 
 
 def replay_tree_equals_source(args):
     try:
+        if args.get("after"):
+            tree_vs_source(args["after"])
         d = tree_vs_source(args["text"])
     except Exception as e:
         d = "raised " + repr(e)[:300]
